@@ -67,7 +67,11 @@ func rulePoolLock(c *Ctx, rule string) {
 				idx  int
 				what string
 			}{{cnt[0], 3, "getAvailableSubnet"}, {alc[0], 2, "allocateDuringFilter"}} {
-				v := callArgs(it.call)[it.idx]
+				v := argNamed(it.call, "isPoolSizeDefined", it.idx)
+				if v == nil {
+					c.undecided(rule, fn, "isPoolSizeDefined argument of "+it.what, it.call, "the argument that carries `isPoolSizeDefined` was not found (neither a parameter nor a field of a parameter struct of that name)")
+					continue
+				}
 				ok := true
 				why := ""
 				if ph, isPhi := v.(*ssa.Phi); isPhi {
@@ -100,7 +104,7 @@ func rulePoolLock(c *Ctx, rule string) {
 			if !ok {
 				return false, 0
 			}
-			isRep := func(x ssa.Value) bool { return sameParam(x, fn.Params[3]) }
+			isRep := func(x ssa.Value) bool { return sameParam(x, pAt(fn, 3)) }
 			switch {
 			case bo.Op == token.GEQ && isRep(bo.Y), bo.Op == token.LEQ && isRep(bo.X):
 				return true, 0
@@ -204,7 +208,7 @@ func ruleFilterAllocErrors(c *Ctx, rule string) {
 			bad, dec := onErrorNever(s, toInstrs(fr))
 			c.ob(rule, fn, "a failed re-key never falls back to a fresh allocation", s, dec && bad == nil, "allocateInSubnet is unreachable from the err!=nil edge of allocateInSubnetWithKey")
 		}
-		resv := guardEdges(fn, predBool(func(v ssa.Value) bool { return sameParam(v, fn.Params[2]) }))
+		resv := guardEdges(fn, predBool(func(v ssa.Value) bool { return isParamOrField(fn, v, "reserve") }))
 		for _, s := range fr {
 			c.ob(rule, fn, "fresh allocation only when nothing is reserved", s, len(resv) > 0 && !reachFromEdgeAny(resv, s), "allocateInSubnet unreachable from the `reserve` edge")
 		}
@@ -242,7 +246,7 @@ func ruleStickyLookup(c *Ctx, rule string) {
 			c.undecided(rule, fn, "lookup / allocate", nil, "expected ByKeyAndIPRanges and one AllocateInSubnetsAndIPRange call")
 		} else {
 			first := look[0]
-			c.ob(rule, fn, "bind looks up the pod's ips before allocating", al[0], precedes(fn, []ssa.Instruction{first}, al[0]) && sameParam(callArgs(first)[0], fn.Params[1]) && sameParam(callArgs(al[0])[0], fn.Params[1]),
+			c.ob(rule, fn, "bind looks up the pod's ips before allocating", al[0], precedes(fn, []ssa.Instruction{first}, al[0]) && sameParam(callArgs(first)[0], pAt(fn, 1)) && sameParam(callArgs(al[0])[0], pAt(fn, 1)),
 				"ByKeyAndIPRanges(key, ..) precedes AllocateInSubnetsAndIPRange(key, ..) on every path, same key parameter")
 			// allocate only on a branch that depends on the lookup result
 			var res ssa.Value
@@ -292,7 +296,7 @@ func ruleStickyLookup(c *Ctx, rule string) {
 			c.ob(rule, fn, "a range is queued for allocation only if its lookup entry is nil", al[0], len(nilT) > 0 && appendGuarded(fn, rng, nilT), "the append to the unallocated-range list is reachable only through the `ipInfos[i] == nil` edge")
 			// reused ips only get their attributes refreshed, under the same key
 			for _, u := range calls(fn, "IPAM).UpdateAttr") {
-				c.ob(rule, fn, "a reused ip keeps its key (attributes only)", u, sameParam(callArgs(u)[0], fn.Params[1]), "UpdateAttr(key, ip, attr) with the pod's key")
+				c.ob(rule, fn, "a reused ip keeps its key (attributes only)", u, sameParam(callArgs(u)[0], pAt(fn, 1)), "UpdateAttr(key, ip, attr) with the pod's key")
 			}
 		}
 	}
